@@ -338,6 +338,14 @@ fn c20() -> Property {
                 note: "performatives: size calculator vs encoder, value tree vs bytes",
             },
             Variant {
+                name: "sizes-and-value-trees",
+                weight: 1,
+                make: || Box::pin(scen::codec::run_c20_sizes()),
+                max_steps: 3_000_000,
+                cases_per_seed: 1,
+                note: "one generated value per run: size calculator vs encoder for untyped values, typed arrays of variable-width elements and an open with capability arrays",
+            },
+            Variant {
                 name: "plain-typed-values",
                 weight: 1,
                 make: || Box::pin(scen::codec::run_c20_plain_typed()),
@@ -346,15 +354,15 @@ fn c20() -> Property {
                 note: "tuples, vectors, options, maps of plain Rust types: size calculator, both readers, value tree",
             },
         ],
-        quick_runs: 5 * 65 * 20,
-        thorough_runs: 5 * 65 * 2000,
+        quick_runs: 6 * 65 * 40,
+        thorough_runs: 6 * 65 * 4000,
         rule: "trailing variant: one run per (seed = generated value and trailing bytes, chunk size in {seeded, 1..64}); typed variant: one generated performative per run; distinct = distinct event-log hash",
         assumptions: vec![
             "the generated value encodings come from the harness's own encoder (including the wide, non-canonical forms); the crate's own encoder is exercised for what it decodes from them",
         ],
         real_components: vec!["serde_amqp (slice reader, io reader, size calculator, value tree)", "fe2o3-amqp-types performatives", "fe2o3-amqp AMQP frame decoder"],
         stub_components: vec!["simulator-owned std::io::Read (chunk sizes)", "independent encoder (refcodec)"],
-        expected_probes: vec!["trailing-bytes-left-in-place", "plain-typed-agreement-checked", "payload-after-performative-checked"],
+        expected_probes: vec!["trailing-bytes-left-in-place", "plain-typed-agreement-checked", "payload-after-performative-checked", "typed-stream-position-checked", "lazy-value-stream-position-checked", "sizes-checked"],
     }
 }
 
